@@ -251,6 +251,10 @@ func (x *xl) expr(e ast.Expr) (string, ltype) {
 			if ta == tNat {
 				return fmt.Sprintf("(andNot %s %s)", a, b), tNat
 			}
+		case token.XOR:
+			if ta == tNat {
+				return fmt.Sprintf("(%s ^^^ %s)", a, b), tNat
+			}
 		}
 		x.fail(e, "unsupported binary %s on %s", v.Op, ta)
 	case *ast.IndexExpr:
@@ -590,21 +594,20 @@ func (x *xl) assign(as *ast.AssignStmt, ind string) string {
 	default:
 		x.fail(as, "unsupported assignment target")
 	}
-	rhs, t := x.expr(as.Rhs[0])
+	var rhs string
+	var t ltype
+	// compound assignments are the binary expression `lhs op rhs` assigned back (x op= y  ==  x = x op y)
+	compound := map[token.Token]token.Token{token.ADD_ASSIGN: token.ADD, token.SUB_ASSIGN: token.SUB, token.MUL_ASSIGN: token.MUL,
+		token.OR_ASSIGN: token.OR, token.AND_ASSIGN: token.AND, token.AND_NOT_ASSIGN: token.AND_NOT, token.XOR_ASSIGN: token.XOR}
 	switch as.Tok {
 	case token.ASSIGN, token.DEFINE:
-	case token.ADD_ASSIGN, token.SUB_ASSIGN:
-		cur, _ := x.expr(as.Lhs[0])
-		op := "+"
-		if as.Tok == token.SUB_ASSIGN {
-			op = "-"
-		}
-		rhs = fmt.Sprintf("wrap64 (%s %s %s)", cur, op, rhs)
-	case token.OR_ASSIGN:
-		cur, _ := x.expr(as.Lhs[0])
-		rhs = fmt.Sprintf("(%s ||| %s)", cur, rhs)
+		rhs, t = x.expr(as.Rhs[0])
 	default:
-		x.fail(as, "unsupported assignment operator %s", as.Tok)
+		op, ok := compound[as.Tok]
+		if !ok {
+			x.fail(as, "unsupported assignment operator %s", as.Tok)
+		}
+		rhs, t = x.expr(&ast.BinaryExpr{X: as.Lhs[0], OpPos: as.TokPos, Op: op, Y: as.Rhs[0]})
 	}
 	x.bind(name, t)
 	return fmt.Sprintf("%slet %s : %s := %s\n", ind, name, t, rhs)
@@ -748,7 +751,7 @@ var condSites = []condSite{
 	{"stack.transfer", "assign:ok", 0, "transfer_ok"},
 	{"stack.defrag", "if", 2, "defrag_go"},
 	{"stack.defrag", "if", 3, "defrag_trunc"},
-	{"stack.implode", "if", 0, "implode_stop"},
+	{"stack.implode", "loopexit", 0, "implode_stop"},
 	{"stack.verifyImplode", "assign:last", 1, "implode_last"},
 	{"Condition.Valid", "if", 5, "cond_op_bogus"},
 }
@@ -808,6 +811,41 @@ func genConds() string {
 			}
 			return true
 		})
+		if cs.kind == "loopexit" {
+			// the exit condition of the k-th `for` of the function: the negation of its condition, or - for a bare
+			// `for {` - the condition of a leading `if … { break }`
+			var loops []*ast.ForStmt
+			ast.Inspect(fd.Body, func(nd ast.Node) bool {
+				if f, ok := nd.(*ast.ForStmt); ok {
+					loops = append(loops, f)
+				}
+				return true
+			})
+			if cs.k >= len(loops) {
+				die("%s: loop #%d not found for site %s", cs.fn, cs.k, cs.name)
+			}
+			f := loops[cs.k]
+			var c string
+			if f.Cond != nil {
+				e, _ := x.expr(f.Cond)
+				c = "(!" + e + ")"
+			} else {
+				ok := false
+				if len(f.Body.List) > 0 {
+					if is, isIf := f.Body.List[0].(*ast.IfStmt); isIf && is.Init == nil && len(is.Body.List) == 1 {
+						if br, isBr := is.Body.List[0].(*ast.BranchStmt); isBr && br.Tok == token.BREAK {
+							c, _ = x.expr(is.Cond)
+							ok = true
+						}
+					}
+				}
+				if !ok {
+					die("%s: loop #%d has no recognisable exit condition (site %s)", cs.fn, cs.k, cs.name)
+				}
+			}
+			fmt.Fprintf(&b, "/-- from Go `%s` (%s): the loop's exit condition -/\ndef %s (env : Env) : Bool := %s\n\n", cs.fn, posOf(fd), cs.name, c)
+			continue
+		}
 		if cs.kind == "exit" {
 			// the disjunction of the conditions of every branch whose body just returns
 			var parts []string
